@@ -1252,6 +1252,10 @@ func encWanted(codec string) bool { return strHasPrefix(codec, "avc") || strHasP
 //@   ensures  ret1 != nil
 //@   ensures  runsStartInsidePeriod: forall k in [0, len(ret0)) :: periodStartS * uint64(timescale) <= *ret0[k].T && *ret0[k].T < periodEndS * uint64(timescale)
 //@   exit 1 requires stopsOnlyAtPeriodEnd: t >= pEnd
+//@   callsite append:newS requires newRunStartsHere: vararg0 != nil && vararg0.T != nil && *vararg0.T == t && vararg0.D == d && vararg0.R == 0 && t >= pStart && t < pEnd
+//@   store currS.R++ requires sameDurationRun: d == currS.D && t >= pStart && t < pEnd
+//@   store outStartNr = requires numberOfFirstEmitted: *outStartNr == *nr && len(newS) == 0 && currS != nil
+//@   store nr++ requires countsOnlySkipped: t - d < pStart
 //@   allocates
 //@   loop 1 invariant pStart == periodStartS * uint64(timescale) && pEnd == periodEndS * uint64(timescale)
 //@   loop 1 invariant forall k in [0, len(newS)) :: newS[k] != nil && newS[k].T != nil
